@@ -101,6 +101,18 @@ class World:
                  mk_amount(r['o'], 'int' if r['f'][1] == 1 and r['o'][1] == 1 and r['f'][0] != 1 else 'dec')) for r in wj['ttable']]
         if rows:
             self.types['T'].register_converter(TableConverter(rows))
+        # every symbol is offered once more with another definition: the attempt is refused (C15 / C16) and the world
+        # stays what it is - from here on units are fetched through their type's own directory
+        for sym, u in list(self.units.items()):
+            cls = u.qty_cls
+            try:
+                if cls.ref_unit is not None and cls.ref_unit is not u and not getattr(cls, 'quantum', None):
+                    cls.new_unit(sym, 'again', 7 * cls.ref_unit)
+                else:
+                    cls.new_unit(sym, 'again')
+            except ValueError:
+                pass
+            self.units[sym] = cls.get_unit_by_symbol(sym)
         self.Quantity = Quantity
         self.quantity = quantity
         return self
@@ -225,6 +237,11 @@ def run_program(world, prog):
                 if o == 'Make':
                     cls = Quantity if op['cls'] == 'Quantity' else world.types[op['cls']]
                     amt = mk_amount(op['a'], op.get('rep', 'dec'))
+                    if op.get('share'):
+                        if op['share'] not in regs or not hasattr(regs[op['share']], 'amount'):
+                            continue
+                        amt = regs[op['share']].amount          # the same amount OBJECT in another quantity
+                        ev['a'] = rat_json(amt)
                     if op['u'] == 'NONE':
                         res = cls(amt)
                     else:
